@@ -424,7 +424,10 @@ def r3(ctx: Ctx) -> None:
     c = canon_function(f, ctx.model)
     b = ("b", 1, 0)
     ctx.site(f.where, "fixed_rectangles == [r for r in self.rectangles if r.fixed]")
-    if c != (("ret", ("comp", "list", (b,), ((b, ("a", s_, "rectangles"), ("a", b, "fixed")),))),):
+    from .common import collect_of
+    rets_ = [st for st in c if st[0] == "ret"]
+    col = collect_of(c, rets_[0][1]) if len(rets_) == 1 and rets_[0][1][:1] == ("v",) else None
+    if not (col is not None and len(col) == 1 and col[0][0] == ("a", s_, "rectangles") and col[0][2] == col[0][1] and col[0][3] == ("a", col[0][1], "fixed")):
         ctx.report(f.where, "fixed-rectangles " + "; ".join(show(x) for x in c)[:200], "fixed_rectangles does not filter the full rectangle list on the fixed flag",
                    lineno=f.node.lineno)
     fcr = ctx.func(NETLIST, "Netlist._create_rectangles")
